@@ -238,7 +238,7 @@ func c03Interp(c c03Case) (v kit.Verdict) {
 					return v.Failf("%s: expected 405, got status=%d ran=%v (allowed by reference: %v)", what, rec.Code, ran, c03Keys2(allowed))
 				}
 				got := map[string]bool{}
-				hdr := rec.Header().Get("Allow")
+				hdr := rec.Result().Header.Get("Allow") // what a client receives: headers set after WriteHeader are not sent
 				for _, m := range strings.Split(hdr, ",") {
 					m = strings.TrimSpace(m)
 					if m != "" {
